@@ -89,6 +89,7 @@ type orWorld struct {
 	leaves  []struct{ block, id uint64 }
 	lpb     uint64
 	pos     uint64
+	stall int
 	owed    uint64
 }
 
@@ -230,6 +231,17 @@ func (w *orWorld) exec(r *Run, line string) string {
 		}
 		if depsOK && w.l1.sampled && w.l1.fin > w.lpb && w.owed == 0 {
 			w.owed = w.l1.fin
+		}
+		// no freeze: with every dependency answering and the syncer at or beyond both the finalized block and the block
+		// the oracle asked for, a tick may spend itself on a remembered older block once (and find its root present);
+		// the next such tick must inject the newest finalized root when the L2 contract does not have it
+		if l, ok := w.latestUntil(w.l1.fin); depsOK && ok && !l2ids[l] && w.lpb >= w.l1.fin && w.lpb >= usedT && len(w.snd.injected) == before {
+			w.stall++
+			if w.stall >= 2 {
+				r.Fail(fmt.Sprintf("[C15] %d consecutive fault-free ticks with the syncer (%d) at or beyond the finalized block %d injected nothing although its latest root #%d is not on L2 (outcome: %s): newer finalized roots are no longer injected", w.stall, w.lpb, w.l1.fin, l, obs), cp)
+			}
+		} else {
+			w.stall = 0
 		}
 	}
 	r.Emit(line, obs)
